@@ -55,4 +55,10 @@ func init() {
 		"sps/range-extension", "sps/scaling-list-data", "sps/scc-extension", "sps/scc-palette-initializers", "sps/separate-colour-planes",
 		"sps/sub-layer-ordering-info-all", "sps/vui", "st_rps/explicit", "st_rps/inter-predicted", "vui/aspect_ratio_idc=0", "vui/bitstream-restriction",
 		"vui/colour-description", "vui/default-display-window", "vui/extended-sar", "vui/hrd", "vui/table-sar", "vui/timing")
+	// more_rbsp_data( ) decisions with emulation prevention bytes around them
+	expect("hevc.sps.extension_data", "flags=0", "flags=8-23", "flags=24-63", "flags=64+", "emulation-prevention-bytes-inside=0",
+		"emulation-prevention-bytes-inside=1", "emulation-prevention-bytes-inside=2", "emulation-prevention-bytes-inside=3+")
+	expect("hevc.pps.extension_data", "flags=0", "flags=8-23", "flags=24-63", "flags=64+", "emulation-prevention-bytes-inside=0",
+		"emulation-prevention-bytes-inside=1", "emulation-prevention-bytes-inside=2", "emulation-prevention-bytes-inside=3+")
+	expect("avc.pps.more_rbsp_data", "decision-at-bit%8=0,more-data", "decision-at-bit%8=0,trailing-bits", "emulation-prevention-bytes-before=3+")
 }
